@@ -29,6 +29,7 @@ type c03Op struct {
 	Err string `json:"err,omitempty"` // stream fault: "", err, panic
 	At  int    `json:"at,omitempty"`
 	Chunk int  `json:"chunk,omitempty"`
+	EOFWithData bool `json:"eof_with_last_data,omitempty"` // the stream's last Read returns (n>0, io.EOF)
 }
 
 type c03Req struct {
@@ -124,6 +125,7 @@ func genC03Req(e *Env, id string, streamy bool) c03Req {
 			op.Err = Pick(e, "", "", "", "err", "panic")
 			op.At = e.Int(n + 1)
 		}
+		op.EOFWithData = e.Chance(30)
 		r.Ops = append(r.Ops, op)
 	case "streamwriter":
 		r.Ops = append(r.Ops, c03Op{Op: "streamwriter", N: sizes[e.Int(len(sizes))], Chunk: Pick(e, 1, 10, 1000, 5000), M: Pick(e, 0, 1, 3)})
@@ -177,6 +179,7 @@ type instrStream struct {
 	chunk    int
 	fault    string
 	at       int
+	eofData  bool
 	reads    int
 	closes   int
 	readAfterClose int
@@ -211,6 +214,9 @@ func (s *instrStream) Read(p []byte) (int, error) {
 	}
 	copy(p, s.data[s.off:s.off+n])
 	s.off += n
+	if s.eofData && n > 0 && s.off >= len(s.data) && (s.fault == "" || s.at > len(s.data)) {
+		return n, io.EOF // io.Reader allows the last bytes and EOF in one call
+	}
 	return n, nil
 }
 
@@ -281,7 +287,7 @@ func c03Apply(ctx *fasthttp.RequestCtx, r *c03Req) *c03Model {
 			ctx.Response.SetBodyRaw(b)
 			setBody(b)
 		case "stream":
-			st := &instrStream{id: r.ID, data: bodyPat(r.ID+"s", op.N), chunk: op.Chunk, fault: op.Err, at: op.At}
+			st := &instrStream{id: r.ID, data: bodyPat(r.ID+"s", op.N), chunk: op.Chunk, fault: op.Err, at: op.At, eofData: op.EOFWithData}
 			m.streams = append(m.streams, st)
 			ctx.SetBodyStream(st, op.M)
 			m.produced = op.N
@@ -578,6 +584,19 @@ func c03Judge(e *Env, p *c03Plan, ci int, raw, sent []byte, aborted, closed bool
 			return
 		}
 		noBody := r.Method == "HEAD" || m.status == 204 || m.status == 304 || (m.status >= 100 && m.status < 200) || m.noBody
+		// a Content-Length on the wire is the length of the body this handler
+		// built (also where the body itself is not sent: HEAD, 204, 304),
+		// never a value left over from another response
+		if cl := resp.Header.Values("Content-Length"); len(cl) > 0 && !(m.declared >= 0 && m.declared != len(m.body)) && m.fault == "" {
+			want := fmt.Sprint(len(m.body))
+			if m.declared >= 0 {
+				want = fmt.Sprint(m.declared)
+			}
+			if len(cl) != 1 || cl[0] != want || m.chunked {
+				e.Violation("header/content-length", "%s: Content-Length %q on the wire, the handler built a body of %s bytes (unknown size: %v)", tag, cl, want, m.chunked)
+				return
+			}
+		}
 		// body
 		// m.body is what the stream yields before it ends (EOF) or fails (error/panic)
 		sized := m.declared >= 0
